@@ -265,6 +265,38 @@ Theorem c18_memo_key_without_flag_refuted :
   memo_run false guard_rstrip_sep (s2l "/w") (fun c => c) [] (tl fault_history ++ tl fault_history)%list = [Escape; Escape].
 Proof. exact memo_key_without_flag_refuted. Qed.
 
+(** Round 5 (seeded c18_8): the containment test made through the case-folding name helpers (_norm_name /
+    _folder_prefix) compares folded strings while the unfolded path goes to the OS: not accepted by the recogniser, and
+    root /t/Maps + ../maps/secret.txt is answered /t/maps/secret.txt (computed witness); a case-variant ancestor is let
+    through as well; other siblings, the name-extending sibling and the parent stay refused; the same component-wise
+    test on the strings themselves is accepted and refuses the case variants. *)
+Theorem c18_casefold_guard_refuted :
+  raise_sound guard_casefold = false /\
+  raise_sound guard_folder_prefix_unfolded = true /\
+  (exists cwd root_arg path a,
+    is_abs cwd = true /\ resolve guard_casefold true cwd root_arg path = Ok a /\
+    ~ seg_prefix (segs (abspath cwd root_arg)) (segs a)) /\
+  resolve guard_casefold true (s2l "/w") (s2l "/t/Content/maps") (s2l "/t/content/maps/secret.txt")
+    = Ok (s2l "/t/content/maps/secret.txt") /\
+  resolve guard_casefold true (s2l "/w") (s2l "/t/Maps") (s2l "../other/x") = Escape /\
+  resolve guard_casefold true (s2l "/w") (s2l "/t/Maps") (s2l "../Maps_backup/x") = Escape /\
+  resolve guard_casefold true (s2l "/w") (s2l "/t/Maps") (s2l "..") = Escape /\
+  resolve guard_casefold true (s2l "/w") (s2l "/t/Maps") (s2l "sub/x.txt") = Ok (s2l "/t/Maps/sub/x.txt") /\
+  resolve guard_folder_prefix_unfolded true (s2l "/w") (s2l "/t/Maps") (s2l "../maps/secret.txt") = Escape /\
+  resolve guard_folder_prefix_unfolded true (s2l "/w") (s2l "/t/Maps") (s2l "..\MAPS\secret.txt")
+    = Ok (s2l "/t/Maps/..\MAPS\secret.txt").
+Proof. exact casefold_guard_refuted. Qed.
+
+(** Round 5: comparisons made on a string under a transformation the guard language has no meaning for (strip, Unicode
+    normalisation, realpath ...) are written down as [SOpaque name x] by the translator and rejected by name: an accepted
+    guard contains none, wherever it stands (so the placeholder meaning of [SOpaque] is never evaluated for one). *)
+Theorem c18_opaque_transformation_never_accepted :
+  (forall g, raise_sound g = true -> gx_plain g = true /\ ok_when false g = true) /\
+  raise_sound guard_strip_eq = false /\
+  (let g := GNot (GAnd (GEq SAbs SRoot) (GEq (SOpaque (s2l "realpath") SAbs) SRoot)) in
+   ok_when false g = true /\ raise_sound g = false).
+Proof. exact opaque_never_accepted. Qed.
+
 (** ------------------------------------------------------------------ whole histories of operations (round 3).
     A history is any list of steps; a step is one access site of the table generated from filesys.py, executed by
     one of any number of RawFileSystem objects (any roots, constrained or not) on arbitrary strings (argument, File
